@@ -1,6 +1,8 @@
 (* C01 - Supervisor: exactly-once, reverse-order, sequential Stop on every shutdown path.
    Statements only.  All statements quantify over every configuration (any number of runnables,
-   any capability mix, both Stop styles, any Run-exit behaviour) and every schedule. *)
+   any capability mix, both Stop styles, any Run-exit behaviour) and every schedule - including the
+   schedules in which Shutdown() is called BEFORE Run() (Run() is an action of the environment:
+   LRunEnter / LRunEntered; the initial state has no Run() goroutine). *)
 From Coq Require Import List Bool Arith.
 From GS Require Import LTS Supervisor SupAccept SupProps SupInv SupStop SupTrig SupGate SupOnce.
 Import ListNotations.
@@ -18,40 +20,67 @@ Theorem C01_not_before : forall c ls s,
   run (step c) (init c) ls = Some s -> c01_not_before c (obs_trace obs ls) = true.
 Proof. exact sup_c01_not_before. Qed.
 
-(* Once Run() has returned, every runnable whose Run was invoked has been stopped exactly once. *)
+(* Once Run() has returned, every runnable whose Run was invoked has been stopped exactly once.
+   ("at most once on every registered runnable" is C01_order; when Shutdown() precedes Run(), Stop() is
+   called on runnables whose Run is never invoked - allowed by "at most once" - see C01_stop_range.) *)
 Theorem C01_exactly_once : forall c ls s,
   run (step c) (init c) ls = Some s -> c01_exactly_once c (obs_trace obs ls) = true.
 Proof. exact sup_c01_exactly_once. Qed.
 
 (* The supervisor does not cancel the runnables' contexts until every Stop() has returned: whenever
    its own cancel() has been called, the complete stop sequence Stop(k-1) .. Stop(0), with all
-   returns, over all k started runnables is already in the history. *)
+   returns, over the whole stop range k = stop_k c s (see C01_stop_range) is already in the history. *)
 Theorem C01_cancel_after : forall c s,
   reachable_sup c s -> own_cancel s = true ->
-  stop_evs (rev (hist s)) = canon_stops (launched s).
+  stop_evs (rev (hist s)) = canon_stops (stop_k c s).
 Proof. exact sup_c01_cancel_after. Qed.
 
-(* Only started runnables are stopped, and nothing is started once shutdown has begun (launch
-   gate, /repo commit 00876a0): the started runnables are always a prefix of the registration order. *)
+(* Nothing is started once shutdown has begun (launch gate, /repo commit 00876a0): the started runnables
+   are always a prefix of the registration order. *)
 Theorem C01_started_prefix : forall c s,
   reachable_sup c s -> is_prefix_k (rn s) (launched s).
 Proof. intros c s H. exact (ip_prefix _ _ (InvPre_reachable c s H)). Qed.
+
+(* Which runnables are stopped (stop_k c s = if sd_all (aux s) then nrun c else launched s; the ghost flag
+   sd_all is set exactly by the step that starts the shutdown while p.runEntered is still false):
+   - when Run() was entered before the launch gate was closed, ONLY what Run() has started is stopped;
+   - when Shutdown() closed the gate BEFORE Run() was entered, EVERY registered runnable is stopped
+     (supervisor.go Shutdown: stopCount = len(p.runnables)), and no runnable's Run is ever invoked. *)
+Theorem C01_stop_range : forall c s,
+  reachable_sup c s ->
+  (sd s <> SdNot -> run_entered (aux s) = false -> sd_all (aux s) = true) /\
+  (sd_all (aux s) = false -> stop_k c s = launched s) /\
+  (sd_all (aux s) = true -> stop_k c s = nrun c /\ launched s = 0) /\
+  (own_cancel s = true -> stop_evs (rev (hist s)) = canon_stops (stop_k c s)).
+Proof. exact sup_c01_stop_range. Qed.
 
 Print Assumptions C01_order.
 Print Assumptions C01_exactly_once.
 Print Assumptions C01_cancel_after.
 Print Assumptions C01_started_prefix.
+Print Assumptions C01_stop_range.
 Print Assumptions C01_not_before.
 
 Definition c01_cfg : config :=
   {| specs := [dflt_spec; dflt_spec]; startup_may_fire := false; shutdown_may_fire := false |}.
 Definition c01_sched : list label :=
-  [LLaunch 0; LRunCall 0; LLaunch 1; LRunCall 1; LCall 1 OpShutdown; LCallerGo 1;
+  [LRunEnter; LRunEntered; LLaunch 0; LRunCall 0; LLaunch 1; LRunCall 1; LCall 1 OpShutdown; LCallerGo 1;
    LStopCall 1; LStopRet 1; LStopCall 0; LStopRet 0; LSdCancel].
 Example C01_ex_schedule :
   exists s, run (step c01_cfg) (init c01_cfg) c01_sched = Some s /\
             stop_evs (obs_trace obs c01_sched) = canon_stops 2.
 Proof. eexists. split; vm_compute; reflexivity. Qed.
+(* Shutdown() before Run(): both registered runnables are stopped, in reverse order, once each, although no
+   Run is ever invoked; a later Run() starts nothing and returns nil *)
+Definition c01_first_sched : list label :=
+  [LCall 1 OpShutdown; LCallerGo 1; LStopCall 1; LStopRet 1; LStopCall 0; LStopRet 0; LSdCancel; LSdWgDone;
+   LRet 1 OpShutdown; LRunEnter; LRunEntered; LLaunch 0; LReapCtx; LMainShutdown; LMainReturn ResNil].
+Example C01_ex_shutdown_before_run :
+  exists s, run (step c01_cfg) (init c01_cfg) c01_first_sched = Some s /\
+            sd_all (aux s) = true /\ stop_k c01_cfg s = 2 /\ launched s = 0 /\
+            stop_evs (obs_trace obs c01_first_sched) = canon_stops 2 /\ main s = MReturned ResNil /\
+            c01_exactly_once c01_cfg (obs_trace obs c01_first_sched) = true.
+Proof. eexists. split; [vm_compute; reflexivity|]. repeat split; vm_compute; reflexivity. Qed.
 Example C01_ex_rejects_forward_order :
   c01_order c01_cfg [EStopCall 0; EStopRet 0; EStopCall 1; EStopRet 1] = false.
 Proof. vm_compute. reflexivity. Qed.
